@@ -385,7 +385,218 @@ theorem incoming_stores_all_new_cookies (s s' : SourceSM.State) (st : Stash) (no
 example : lastEight ([[1],[2],[3],[4],[5],[6],[7]] ++ [[100],[101],[102]]) =
     [[3],[4],[5],[6],[7],[100],[101],[102]] := by decide
 
+/-! #### histories of the source state machine
+
+The stash-level history theorems above, transported to histories of `NtpVerif.Model.SourceSM` (timers, accepted and
+ignored incoming datagrams, in any interleaving): every source op performs a list of stash ops (`stashOps`), the
+source's stash after a history is the stash after the concatenated stash ops (`sm_run_stash`), and
+`stash_refines_queue` + `spec_history` give the two history statements. -/
+
+/-- cookies delivered by the history: the encrypted-list cookies of the responses that were ACCEPTED, in order -/
+def smDelivered (s : SourceSM.State) : List SourceSM.Op → List Cookie
+  | [] => []
+  | op :: ops =>
+    (match op, (SourceSM.step s op).2 with
+     | .incoming _ (some p) _ _ _, .incoming (.accepted _ _ _) => p.cookiesEnc
+     | _, _ => []) ++ smDelivered (SourceSM.step s op).1 ops
+
+/-- the cookie a source observation puts on the wire -/
+def obsCookie : SourceSM.Obs → List Cookie
+  | .timer (.send i) => i.cookie.toList
+  | _ => []
+
+/-- cookies put into requests by the history, in order -/
+def smSent (s : SourceSM.State) (ops : List SourceSM.Op) : List Cookie :=
+  (SourceSM.observations s ops).flatMap obsCookie
+
+/-- the stash operations one source op performs -/
+def stashOps (s : SourceSM.State) (op : SourceSM.Op) : List Op :=
+  match op, (SourceSM.step s op).2 with
+  | .timer _ _ _ _ _, _ => if s.reach = 0 ∧ s.tries ≥ 3 then [] else [.timer]
+  | .incoming _ (some p) _ _ _, .incoming (.accepted _ _ _) => p.cookiesEnc.map .store
+  | _, _ => []
+
+def stashOpsRun (s : SourceSM.State) : List SourceSM.Op → List Op
+  | [] => []
+  | op :: ops => stashOps s op ++ stashOpsRun (SourceSM.step s op).1 ops
+
+theorem run_append (st : Stash) (a b : List Op) :
+    run st (a ++ b) = ((run (run st a).1 b).1, (run st a).2 ++ (run (run st a).1 b).2) := by
+  induction a generalizing st with
+  | nil => simp [run]
+  | cons x a ih =>
+    simp only [List.cons_append, run]
+    rw [ih]
+
+theorem sent_append (x y : List Obs) : sent (x ++ y) = sent x ++ sent y := by
+  induction x with
+  | nil => rfl
+  | cons o x ih =>
+    cases o with
+    | unit => simpa [sent] using ih
+    | got g => cases g <;> simp [sent, ih]
+    | timer t => cases t <;> simp [sent, ih]
+
+theorem stored_append (a b : List Op) : stored (a ++ b) = stored a ++ stored b := by
+  induction a with
+  | nil => rfl
+  | cons x a ih => cases x <;> simp [stored, ih]
+
+theorem stored_map_store (cs : List Cookie) : stored (cs.map .store) = cs := by
+  induction cs with
+  | nil => rfl
+  | cons c cs ih => simp [stored, ih]
+
+/-- running the `store` ops of a cookie list = `storeAll`; nothing is sent meanwhile -/
+theorem run_stores (cs : List Cookie) (st : Stash) (h : WF st) :
+    SourceSM.storeAll st cs = some (run st (cs.map .store)).1 ∧ sent (run st (cs.map .store)).2 = [] := by
+  induction cs generalizing st with
+  | nil => exact ⟨rfl, rfl⟩
+  | cons c cs ih =>
+    obtain ⟨h1, h2⟩ := ih (store st c) (wf_store st c h)
+    simp only [SourceSM.storeAll, storeChecked_eq st c h, List.map_cons, run, step]
+    exact ⟨h1, by simpa [sent] using h2⟩
+
+/-- one source op = its stash ops, on the stash; what it sends is among what they send -/
+theorem sm_step_stash (s : SourceSM.State) (op : SourceSM.Op) (st : Stash) (hn : s.nts = some st) (hwf : WF st) :
+    (SourceSM.step s op).1.nts = some (run st (stashOps s op)).1 ∧
+    (obsCookie (SourceSM.step s op).2).Sublist (sent (run st (stashOps s op)).2) ∧
+    (match op, (SourceSM.step s op).2 with
+     | .incoming _ (some p) _ _ _, .incoming (.accepted _ _ _) => p.cookiesEnc
+     | _, _ => []) = stored (stashOps s op) := by
+  cases op with
+  | timer now d o u t =>
+    simp only [SourceSM.step, stashOps]
+    rcases SourceSM.timer_cases s now d o u t with ⟨h0, e⟩ | ⟨h0, ⟨hp, _⟩ | ⟨st0, st', hn', htc, e⟩ |
+        ⟨st0, st', hn', htc, e⟩ | ⟨st0, st', c, n, hn', htc, ⟨_, e⟩ | ⟨_, e⟩⟩⟩
+    · rw [e]; simp only [h0, and_self, if_true, run]
+      refine ⟨hn, ?_, (by first | rfl | trivial | simp [stored])⟩
+      cases s.haveDeny <;> simp [obsCookie, sent]
+    · rw [hn] at hp; cases hp
+    all_goals
+      rw [hn] at hn'; injection hn' with hn'; subst hn'
+      rw [e]; simp only [h0, if_false, run, step, htc]
+    · exact ⟨(by first | rfl | trivial), by simp [obsCookie, sent], (by first | rfl | trivial | simp [stored])⟩
+    · exact ⟨(by first | rfl | trivial), by simp [obsCookie, sent], (by first | rfl | trivial | simp [stored])⟩
+    · exact ⟨(by first | rfl | trivial), by simp [obsCookie, sent], (by first | rfl | trivial | simp [stored])⟩
+    · exact ⟨(by first | rfl | trivial), by simp [obsCookie, sent], (by first | rfl | trivial | simp [stored])⟩
+  | incoming now parsed a b bl =>
+    have hkeep : ∀ (s' : SourceSM.State) (o : SourceSM.InOut),
+        SourceSM.handleIncomingG true s now parsed a b bl = (s', o) → (∀ u m k, o ≠ .accepted u m k) → s'.nts = s.nts →
+        (SourceSM.step s (.incoming now parsed a b bl)).1.nts = some (run st (stashOps s (.incoming now parsed a b bl))).1 ∧
+        (obsCookie (SourceSM.step s (.incoming now parsed a b bl)).2).Sublist
+          (sent (run st (stashOps s (.incoming now parsed a b bl))).2) ∧
+        (match SourceSM.Op.incoming now parsed a b bl, (SourceSM.step s (.incoming now parsed a b bl)).2 with
+         | .incoming _ (some p) _ _ _, .incoming (.accepted _ _ _) => p.cookiesEnc
+         | _, _ => []) = stored (stashOps s (.incoming now parsed a b bl)) := by
+      intro s' o e hna hnts
+      have e' : SourceSM.handleIncoming s now parsed a b bl = (s', o) := e
+      simp only [SourceSM.step, stashOps, e']
+      cases parsed with
+      | none => exact ⟨by rw [hnts, hn]; rfl, by simp [obsCookie, sent, run], (by first | rfl | trivial | simp [stored])⟩
+      | some p =>
+        cases o with
+        | accepted u m k => exact absurd rfl (hna u m k)
+        | ignore => exact ⟨by rw [hnts, hn]; rfl, by simp [obsCookie, sent, run], (by first | rfl | trivial | simp [stored])⟩
+        | demobilize => exact ⟨by rw [hnts, hn]; rfl, by simp [obsCookie, sent, run], (by first | rfl | trivial | simp [stored])⟩
+        | panic => exact ⟨by rw [hnts, hn]; rfl, by simp [obsCookie, sent, run], (by first | rfl | trivial | simp [stored])⟩
+    rcases SourceSM.incoming_cases true s now parsed a b bl with e | ⟨p, id, dl, hp, _, _, _, _, hc⟩
+    · exact hkeep _ _ e (by intro u m k h; cases h) rfl
+    · rcases hc with ⟨_, _, e⟩ | ⟨_, _, ⟨_, e⟩ | ⟨rr, _, e⟩⟩ | ⟨_, _, _, ⟨_, e⟩ | ⟨_, e⟩⟩ | ⟨_, _, _, e⟩
+      · exact hkeep _ _ e (by intro u m k h; cases h) rfl
+      · exact hkeep _ _ e (by intro u m k h; cases h) rfl
+      · exact hkeep _ _ e (by intro u m k h; cases h) rfl
+      · exact hkeep _ _ e (by intro u m k h; cases h) rfl
+      · exact hkeep _ _ e (by intro u m k h; cases h) rfl
+      · subst hp
+        obtain ⟨hs1, hs2⟩ := run_stores p.cookiesEnc st hwf
+        have hpm : SourceSM.processMessage { s with proto := SourceSM.protoOnValid s.proto p.isUpgrade } p a b bl =
+            (((SourceSM.processMessage { s with proto := SourceSM.protoOnValid s.proto p.isUpgrade } p a b bl).1),
+             (SourceSM.processMessage { s with proto := SourceSM.protoOnValid s.proto p.isUpgrade } p a b bl).2) := rfl
+        have e' : SourceSM.handleIncoming s now (some p) a b bl =
+            SourceSM.processMessage { s with proto := SourceSM.protoOnValid s.proto p.isUpgrade } p a b bl := e
+        unfold SourceSM.processMessage at e'
+        simp only [hn, hs1] at e'
+        simp only [SourceSM.step, stashOps, e']
+        exact ⟨(by first | rfl | trivial), by simp [obsCookie, hs2], (by first | exact (stored_map_store _).symm | simp [stored_map_store])⟩
+
+/-- a history of the source = the concatenated stash ops on its stash -/
+theorem sm_run_stash (ops : List SourceSM.Op) (s : SourceSM.State) (st : Stash) (hn : s.nts = some st)
+    (hwf : WF st) :
+    (SourceSM.run s ops).1.nts = some (run st (stashOpsRun s ops)).1 ∧
+    (smSent s ops).Sublist (sent (run st (stashOpsRun s ops)).2) ∧
+    smDelivered s ops = stored (stashOpsRun s ops) := by
+  induction ops generalizing s st with
+  | nil => exact ⟨by simpa [SourceSM.run, stashOpsRun, run] using hn, by simp [smSent, SourceSM.observations, SourceSM.run, stashOpsRun, run, sent], rfl⟩
+  | cons op ops ih =>
+    obtain ⟨h1, h2, h3⟩ := sm_step_stash s op st hn hwf
+    have hwf' : WF (run st (stashOps s op)).1 := (stash_refines_queue _ st hwf).1
+    obtain ⟨i1, i2, i3⟩ := ih (SourceSM.step s op).1 _ h1 hwf'
+    simp only [SourceSM.run, stashOpsRun, smDelivered]
+    rw [run_append, sent_append, stored_append, ← h3, ← i3]
+    refine ⟨i1, ?_, rfl⟩
+    simp only [smSent, SourceSM.observations, SourceSM.run, List.map_cons, List.flatMap_cons]
+    exact List.Sublist.append h2 i2
+
+/-- **C13.sm_each_cookie_sent_once** — over ANY history of the source state machine (timers, accepted, ignored,
+    forged, replayed datagrams in any interleaving) of an NTS source whose stash initially holds `abs st`: the cookies
+    put into requests, in the order sent, form a sub-list of (initially held ++ cookies delivered in the encrypted
+    lists of ACCEPTED responses, in order of delivery): each delivered cookie is sent at most once, never out of
+    order, and nothing else is ever sent. -/
+theorem sm_each_cookie_sent_once (ops : List SourceSM.Op) (s : SourceSM.State) (st : Stash)
+    (hn : s.nts = some st) (hwf : WF st) :
+    (smSent s ops).Sublist (abs st ++ smDelivered s ops) := by
+  obtain ⟨_, h2, h3⟩ := sm_run_stash ops s st hn hwf
+  obtain ⟨_, _, hobs⟩ := stash_refines_queue (stashOpsRun s ops) st hwf
+  have hlen : (abs st).length ≤ 8 := by rw [abs_length]; exact hwf.2.2
+  obtain ⟨pre', e, _, sub⟩ := spec_history (stashOpsRun s ops) (abs st) [] [] hlen (List.Sublist.refl _)
+  simp only [List.nil_append] at e sub
+  rw [h3]
+  refine h2.trans ((sent_sublist_released _).trans ?_)
+  rw [hobs]
+  exact sub.trans (by rw [e]; exact List.sublist_append_left _ _)
+
+/-- **C13.sm_keeps_newest_eight** — after any such history the stash is well-formed, holds at most eight cookies,
+    and they are the NEWEST ones of (initially held ++ delivered) that have not left it: the held queue is a suffix
+    of that list. -/
+theorem sm_keeps_newest_eight (ops : List SourceSM.Op) (s : SourceSM.State) (st : Stash)
+    (hn : s.nts = some st) (hwf : WF st) :
+    ∃ st', (SourceSM.run s ops).1.nts = some st' ∧ WF st' ∧ (abs st').length ≤ 8 ∧
+      abs st' <:+ (abs st ++ smDelivered s ops) := by
+  obtain ⟨h1, _, h3⟩ := sm_run_stash ops s st hn hwf
+  obtain ⟨hw, habs, _⟩ := stash_refines_queue (stashOpsRun s ops) st hwf
+  have hlen : (abs st).length ≤ 8 := by rw [abs_length]; exact hwf.2.2
+  obtain ⟨pre', e, l, _⟩ := spec_history (stashOpsRun s ops) (abs st) [] [] hlen (List.Sublist.refl _)
+  simp only [List.nil_append] at e
+  refine ⟨_, h1, hw, by rw [habs]; exact l, ?_⟩
+  rw [habs, h3]
+  exact ⟨pre', e.symm⟩
+
+/-- from an empty stash: everything sent was delivered by an accepted response -/
+theorem sm_each_cookie_sent_once_init (ops : List SourceSM.Op) (s : SourceSM.State) (hn : s.nts = some init) :
+    (smSent s ops).Sublist (smDelivered s ops) := by
+  have := sm_each_cookie_sent_once ops s init hn wf_init
+  rwa [abs_init, List.nil_append] at this
+
 /-! #### non-vacuity: the hypotheses are met by concrete, non-trivial states -/
+
+/-- a concrete NTS history: one cookie held; it is sent; an accepted answer delivers two in its encrypted list (and one
+    each in the authenticated and untrusted lists, which are not stored); the next request uses the first of them -/
+def exCfg : SourceSM.Cfg := ⟨⟨4, 10⟩, 16, [], 5⟩
+def exUid : List UInt8 := List.replicate 32 7
+def exAnswer : SourceSM.Pkt :=
+  { version := 5, mode := 4, stratum := 2, poll := 6, kiss := .other, refid := 0, refTs := 0, origin := 99,
+    uidAuth := [exUid], uidEnc := [], uidUntr := [], authnak := false, cookiesAuth := [[6]], cookiesEnc := [[9, 9], [8, 8]],
+    cookiesUntr := [[5]], rrAuth := false, rrUntr := false, leap := 0, precision := 0, rootDelay := 0, rootDisp := 0,
+    recvTs := 0, xmitTs := 0 }
+def exOps : List SourceSM.Op :=
+  [.timer 0 4 99 exUid 16500000000, .incoming 1000000 (some exAnswer) 0 0 none, .timer 17000000000 4 100 exUid 16500000000]
+def exStart : SourceSM.State := SourceSM.init exCfg .v5 (some (store init [1, 1]))
+
+example : smSent exStart exOps = [[1, 1], [9, 9]] ∧ smDelivered exStart exOps = [[9, 9], [8, 8]] ∧
+    ((SourceSM.run exStart exOps).1.nts.map abs) = some [[8, 8]] := by decide
+
+
 
 /-- a full stash that has wrapped around is well-formed, and storing into it evicts the oldest -/
 example : WF ⟨[[1],[2],[3],[4],[5],[6],[7],[8]], 3, 8⟩ ∧
@@ -412,3 +623,6 @@ end NtpVerif.C13
 #print axioms NtpVerif.C13.oldest_first
 #print axioms NtpVerif.C13.request_asks_gap
 #print axioms NtpVerif.C13.incoming_stores_all_new_cookies
+#print axioms NtpVerif.C13.sm_each_cookie_sent_once
+#print axioms NtpVerif.C13.sm_keeps_newest_eight
+#print axioms NtpVerif.C13.sm_each_cookie_sent_once_init
